@@ -8,7 +8,7 @@ from __future__ import annotations
 
 import ast
 
-from ..core import AnalysisError, read_elements_yaml, dotted
+from ..core import AnalysisError, read_elements_yaml, dotted, enclosing_function
 from ..lexprobe import LexProbe
 from ..pe import Interp, PRaise
 from ..templates import table_keys_with_nodes, Gen
@@ -258,9 +258,30 @@ def check(chk, repo, tier):
                witness="run `kX` twice under a modifier: the table has "
                        "grown an undocumented arity -1 entry")
         writes = []
+
+        def is_local(node, name):
+            """the name is a parameter / local of the enclosing function"""
+            fn_ = enclosing_function(node)
+            while fn_ is not None:
+                if isinstance(fn_, (ast.FunctionDef, ast.Lambda)):
+                    a_ = fn_.args
+                    if name in {x.arg for x in a_.posonlyargs + a_.args
+                                + a_.kwonlyargs}:
+                        return True
+                    if isinstance(fn_, ast.FunctionDef) and any(
+                            isinstance(x, ast.Name) and x.id == name
+                            and isinstance(x.ctx, ast.Store)
+                            for x in ast.walk(fn_)):
+                        return True
+                fn_ = enclosing_function(fn_)
+            return False
+
         for modname in pkg_mods:
             m = repo.mod(modname)
             for n in ast.walk(m.tree):
+                if isinstance(n, (ast.Assign, ast.AugAssign, ast.AnnAssign,
+                                  ast.Delete, ast.Call)) and is_local(n, tname):
+                    continue
                 tg = []
                 if isinstance(n, ast.Assign):
                     tg = n.targets
